@@ -30,7 +30,7 @@ Definition field_required (f : field) : bool :=
             | _ => false end
   end.
 Definition field_vp (f : field) : option vparser :=
-  match f_ty f with TyUnit => None | _ => Some (vp_of (is_count (Some (field_action f))) (f_t f)) end.
+  match f_ty f with TyUnit => None | _ => Some (vp_of (is_count (Some (field_action f))) (f_icase f) (f_t f)) end.
 
 Definition field_arg_cf (f : field) : arg :=
   mkArg (f_id f)
